@@ -114,3 +114,53 @@ Definition check_lfo (tab : list int) (tpb : Z) (f lo hi : Q) (init : int) (exp 
   let l0 := new_lfo f lo hi in
   close (lfo_value l0) (fst (dec init)) &&
   all2 (fun m e => close m (fst (dec e))) (lfo_trace s tpb (List.length exp) l0) exp.
+
+(** LFO histories with re-configuration (FIX-C18).  The frequency changes along the way, so the sine table is keyed by
+    the exact phase x = current_time * frequency (reduced numerator / denominator), values scaled by 10^15 *)
+Definition se (n : Z) (d : positive) (i : int) : Z * positive * int := (n, d, i).
+Arguments se n%Z d%positive i%uint63.
+Fixpoint assoc_find (n : Z) (d : positive) (tab : list (Z * positive * int)) : option int :=
+  match tab with
+  | [] => None
+  | (n', d', i) :: r => if (n' =? n)%Z && (d' =? d)%positive then Some i else assoc_find n d r
+  end.
+Definition sin_of_assoc (tab : list (Z * positive * int)) (x : Q) : Q :=
+  let k := Qred x in
+  match assoc_find (Qnum k) (Qden k) tab with
+  | Some i => inject_Z (fst (dec i)) / 1000000000000000
+  | None => 0
+  end.
+
+(* a segment: an optional re-configuration with the value the implementation showed right after it, then the
+   values after each of the following ticks *)
+Record lseg := mkLseg { ls_op : option lfo_op; ls_val : option int; ls_ticks : list int }.
+
+Fixpoint check_lfo_ticks (s : Q -> Q) (tpb : Z) (l : lfo) (lits : list int) : bool * lfo :=
+  match lits with
+  | [] => (true, l)
+  | e :: r => let l1 := lfo_tick s tpb l in
+              if close (lfo_value l1) (fst (dec e)) then check_lfo_ticks s tpb l1 r else (false, l1)
+  end.
+
+Fixpoint check_lfo_segs (s : Q -> Q) (tpb : Z) (l : lfo) (segs : list lseg) : bool :=
+  match segs with
+  | [] => true
+  | g :: rest =>
+      let l1 := match ls_op g with Some o => lfo_step s tpb o l | None => l end in
+      (match ls_val g with Some v => close (lfo_value l1) (fst (dec v)) | None => true end) &&
+      (let '(ok, l2) := check_lfo_ticks s tpb l1 (ls_ticks g) in ok && check_lfo_segs s tpb l2 rest)
+  end.
+
+Definition check_lfo_script (tab : list (Z * positive * int)) (tpb : Z) (f lo hi : Q) (init : int) (segs : list lseg) : bool :=
+  let l0 := new_lfo f lo hi in
+  close (lfo_value l0) (fst (dec init)) && check_lfo_segs (sin_of_assoc tab) tpb l0 segs.
+
+(* Timeline.lfo(params, name): the timeline holds the LFO named 0 followed by LFOs created later under the names
+   [others]; does the call return the first LFO (position 0), and how many LFOs does the timeline hold
+   afterwards?  (None = the real code raised) *)
+Definition check_tl_lfo (others : list (option Z)) (name : option Z) (props : list (lfo_key * Q)) (exp : option (bool * Z)) : bool :=
+  match tl_lfo name props ((Some 0%Z, new_lfo 1 0 1) :: map (fun n => (n, new_lfo 1 0 1)) others), exp with
+  | None, None => true
+  | Some (ls, i), Some (same, n) => Bool.eqb (Nat.eqb i 0) same && (Z.of_nat (List.length ls) =? n)%Z
+  | _, _ => false
+  end.
